@@ -88,6 +88,14 @@ class Scheduler {
   }
 
   int nthreads() { return (int)threads.size(); }
+  // controlled threads other than main that have not run to their end (still parked somewhere)
+  int unfinished() {
+    std::lock_guard<std::mutex> g(mu);
+    int n = 0;
+    for (size_t i = 1; i < threads.size(); ++i)
+      if (threads[i].arrived && !threads[i].done) ++n;
+    return n;
+  }
   const ThreadRec &thread(int i) { return threads[i]; }
   int index_of_obj(const void *obj) {
     for (size_t i = 0; i < threads.size(); ++i)
